@@ -47,12 +47,12 @@ check("C01", "model_checking",
       "bounded-exhaustive input/configuration enumeration of the real encoders/parsers against an independent oracle",
       "DESIGN.md §5 C01", "mc")
 check("C02", "model_checking",
-      "Every input of five families (three length fields over 29-41 boundary classes x spec x buffer lengths; every single-byte mutation, truncation and field replacement of 40-52 valid frames; two-frame streams cut at every byte; raw strings of every length; headers declaring 16 MiB or >= 2^62) is executed on all ten parsing/reading entry points (33 slots: read sizes 1/7/48/all, reused buffers, Pending-interleaved async) inside child processes; a panic, abort or hang, an accepted inconsistent frame, or returned bytes that are not the input's are violations (u128 reference parser). A second phase sends hostile headers over loopback TCP to Server/AsyncServer and as responses to Client/AsyncClient.",
+      "Every input of five families (three length fields over 29-41 boundary classes x spec x buffer lengths; every single-byte mutation, truncation and field replacement of 40-52 valid frames; two-frame streams cut at every byte; raw strings of every length; headers declaring 16 MiB or >= 2^62) is executed on all ten parsing/reading entry points (33 slots: read sizes 1/7/48/all, reused buffers, Pending-interleaved async) inside child processes; a panic, abort or hang, an accepted inconsistent frame, or returned bytes that are not the input's are violations (u128 reference parser). A second phase sends hostile headers over loopback TCP to Server/AsyncServer and as responses to Client/AsyncClient, and the same payloads (plus frames with trailing bytes / cut short) as one WebSocket message to a WebSocketServer connection, the WebSocket proxy and a pending WebSocketClient call over in-memory streams.",
       "Strings up to 4 KiB are covered as boundary classes and exhaustive single-point mutations, not all 2^32768 strings. Stream readers only get declared sizes <= 16 MiB or >= 2^62 as the property fixes.",
       "bounded-exhaustive input enumeration with child-process isolation against a reference parser",
       "DESIGN.md §5 C02", "mc")
 check("C03", "model_checking",
-      "All pipelines over a 52-letter request alphabet (every handler kind incl. blocking/middleware-wrapped/registry/struct/custom-erased, every body-format code with well-formed and malformed bodies, bad versions, query formats, non-UTF-8 and unknown paths, notify twins): every letter, every ordered pair, triples over a sub-alphabet, each letter x64 (+ pairs around 62 echoes in thorough), each written in one burst on a fresh connection of four real servers (blocking TCP, async TCP, async over an in-memory stream, WebSocket with inline and off-reader routes). Everything received until the server closes is matched by id against a reference model (exactly one response per request, none for notifies, specified error codes, query echo, arrival order of inline responses, same fields on every transport) and handler/middleware invocation counters are compared per pipeline.",
+      "All pipelines over a 52-letter request alphabet (every handler kind incl. blocking/middleware-wrapped/registry/struct/custom-erased, every body-format code with well-formed and malformed bodies, bad versions, query formats, non-UTF-8 and unknown paths, notify twins): every letter, every ordered pair, triples over a sub-alphabet, each letter x64 (+ pairs around 62 echoes in thorough), each written in one burst on a fresh connection of four real servers (blocking TCP, async TCP, async over an in-memory stream, WebSocket with inline and off-reader routes). Everything received until the server closes is matched by id against a reference model (exactly one response per request, none for notifies, specified error codes, query echo, arrival order of inline responses, same fields on every transport) and handler/middleware invocation counters are compared per pipeline. One additional free-running row (WebSocket, 4 worker threads, outbound queue of 1) is reported as non-deciding.",
       "Handlers are deterministic; TCP rows use real loopback sockets with a 10 s watchdog on predicted events only. Sequences of more than three distinct letters only in the repeated/embedded forms.",
       "bounded-exhaustive enumeration of request pipelines against running endpoints with a reference model",
       "DESIGN.md §5 C03", "mc")
@@ -89,17 +89,17 @@ check("C08", "model_checking",
       "DESIGN.md §5 C08", "mc")
 
 check("C04", "model_checking",
-      "Two engines. mc: for AsyncClient and WebSocketClient over an in-memory stream on a paused single-threaded runtime, n <= 5 (thorough 7) concurrent calls x every permutation of the n replies x one extra frame (unknown id, duplicate of reply j, notify reusing in-flight id j) at every position x delivery one-by-one or in one burst; batch_json under every reply order; replies injected while the request's own write is blocked after 48+k bytes. lm: the real blocking client.rs under loom (mock socket, loom channel, 2-3 caller threads + reader + scripted server): in-order, reversed, unknown+duplicate, early-reply and multi-call scripts at preemption bound 2 (3 in thorough); every schedule must give each call the response addressed to its own request id, distinct ids, no hang.",
+      "Two engines. mc: for AsyncClient and WebSocketClient over an in-memory stream on a paused single-threaded runtime, n <= 5 (thorough 7) concurrent calls x every permutation of the n replies x one extra frame (unknown id, duplicate of reply j, notify reusing in-flight id j) at every position x delivery one-by-one or in one burst; batch_json under every reply order; replies injected while the request's own write is blocked after 48+k bytes; forward_message re-using the id of an in-flight call; batches longer than the blocking client's worker cap (63..4*cores+1 requests, answered in waves in three orders) on all three clients; the blocking Client's reply permutations over loopback TCP. lm: the real blocking client.rs under loom (mock socket, loom channel, 2-3 caller threads + reader + scripted server): in-order, reversed, unknown+duplicate, early-reply and multi-call scripts at preemption bound 2 (3 in thorough); every schedule must give each call the response addressed to its own request id, distinct ids, no hang.",
       "tokio multi-threaded scheduling below transport granularity is not explored for the two tokio clients (single-threaded runtime); loom explores SC interleavings within the preemption bound; AsyncClient has no notification API (a notify reusing an id may be consumed by that call).",
       "exhaustive enumeration of peer scripts against the running clients (mc) + loom stateless model checking of the blocking client",
       "DESIGN.md §5 C04", "mc+lm")
 check("C05", "fault_enumeration",
-      "Two engines. mc: forced-stall scripts with exact write credit on in-memory streams - concurrent calls + notify on AsyncClient / WebSocketClient with payloads straddling the 8 KiB writer buffer and the peer accepting exactly k bytes; a large call abandoned after exactly k accepted bytes followed by another call; AsyncServer with a write timeout whose response stalls past the deadline, and pipelined responses stalled then released; WebSocket server with concurrent off-reader responses and pushed notifies against a stalled peer; blocking Server and blocking Client over loopback TCP with 24 MiB frames and a 300 ms write timeout. lm: blocking client under loom with 7..24-byte write quotas and a 1-byte pipe. Everything the peer receives must parse into whole frames and nothing may follow an interrupted write.",
+      "Two engines. mc: forced-stall scripts with exact write credit on in-memory streams - concurrent calls + notify on AsyncClient / WebSocketClient with payloads straddling the 8 KiB writer buffer and the peer accepting exactly k bytes; a large call abandoned after exactly k accepted bytes followed by another call; AsyncServer with a write timeout whose response stalls past the deadline, and pipelined responses stalled then released with per-write byte limits around the 8 KiB staging buffer (a peer buffer above 256 MiB is a runaway writer); a call abandoned while another is queued on the writer lock; WebSocket server with concurrent off-reader responses and pushed notifies against a stalled peer; blocking Server and blocking Client over loopback TCP with 24 MiB frames and a 300 ms write timeout. lm: blocking client under loom with 7..24-byte write quotas and a 1-byte pipe. Everything the peer receives must parse into whole frames and nothing may follow an interrupted write.",
       "TCP rows depend on the kernel filling its socket buffers with 24 MiB (a counter reports that it did); 2-4 writers under forced stalls, not 32 free-running ones.",
       "exhaustive enumeration of stall offsets / interruption points against running endpoints (mc) + loom model checking of the blocking client's writer",
       "DESIGN.md §5 C05", "mc+lm")
 check("C06", "fault_enumeration",
-      "Two engines. mc: for AsyncClient and WebSocketClient with a paused clock - every fault (peer closes before/after the requests, reset, reply cut after 1/47/48/50/len-1 bytes, five kinds of malformed frame, answer-one-then-close) x 0..3 (thorough 0..16) calls in flight x with/without per-call timeouts; a response arriving 4990/50/2 ms before a 5 s timeout and after it, with and without a sibling call; staggered timeouts; cancellation before start, while awaiting the response and while queued on the writer lock; a call still pending after a virtual hour is a hang; pending map must be empty; the subscriber must see end-of-stream. lm: blocking client under loom - close before/after read, partial response, malformed header, answer-then-close, timeout vs late reply, reply racing the timeout (virtual clock): no schedule may leave a thread blocked.",
+      "Two engines. mc: for AsyncClient and WebSocketClient with a paused clock - every fault (peer closes before/after the requests, reset, reply cut after 1/47/48/50/len-1 bytes, five kinds of malformed frame, answer-one-then-close) x 0..3 (thorough 0..16) calls in flight x with/without per-call timeouts; a response arriving 4990/50/2 ms before a 5 s timeout and after it, with and without a sibling call; staggered timeouts; cancellation before start, while awaiting the response, while queued on the writer lock, and mid-write with a sibling call queued behind it; a call still pending after a virtual hour is a hang; pending map must be empty; the subscriber must see end-of-stream. lm: blocking client under loom - close before/after read, partial response, malformed header, answer-then-close, timeout vs late reply, reply racing the timeout (virtual clock): no schedule may leave a thread blocked.",
       "Promptness is decided as 'returns without waiting for something that never comes', not as wall-clock latency.",
       "exhaustive fault-script enumeration against the running clients (mc) + loom model checking of the blocking client",
       "DESIGN.md §5 C06", "mc+lm")
@@ -109,13 +109,13 @@ check("C09", "model_checking",
       "bounded-exhaustive enumeration of sessions/configurations against the real handlers with a byte-exact oracle",
       "DESIGN.md §5 C09", "mc")
 check("C14", "model_checking",
-      "Two engines. mc: every operation x every pointer of an 869-pointer universe (all <= 3-token pointers over 9 tokens incl. escapes/empty/indices, malformed forms, root forms) from three start trees; all histories to depth 3 (thorough 5) + BFS to depth 6 (10) in a small scope; each request repeated through Router::with_registry under three prefixes and seven body formats on twin registries; oracle = serde_json document + callable set with an independent RFC 6901 tokenizer. lm: real registry.rs under loom (unbounded DPOR): all pairs (and triples) of 10 request scripts on colliding pointers must be serialisable.",
+      "Two engines. mc: every operation x every pointer of an 869-pointer universe (all <= 3-token pointers over 9 tokens incl. escapes/empty/indices, malformed forms, root forms) from three start trees; all histories to depth 3 (thorough 5) + BFS to depth 6 (10) in a small scope; each request repeated through Router::with_registry under three prefixes and seven body formats on twin registries; oracle = serde_json document + callable set with an independent RFC 6901 tokenizer; a model-free sweep over array-index spellings RFC 6901 forbids (\"01\", \"+1\", ...) checks only the stated read-back and unrelated-unchanged clauses for writes that succeed. lm: real registry.rs under loom (unbounded DPOR): all pairs (and triples) of 14 request scripts on colliding pointers (incl. two-pointer readers against multi-key root merges) must be serialisable.",
       "The JSON returned by reading a callable's own pointer, error texts and codes of well-formed but impossible requests are unspecified and not compared; \"\" and \"/\" both address the root as in the implementation.",
       "bounded-exhaustive history/input enumeration against a reference model (mc) + loom linearizability checking",
       "DESIGN.md §5 C14", "mc+lm")
 
 check("C19", "fault_enumeration",
-      "A scripted fake node (real TCP listener owned by the harness, with a connect(2) seam so that a refused attempt is counted exactly) plays every outcome sequence of length <= max_attempts+2 over the seven-outcome alphabet (refused, accepted-then-closed, closed-while-idle, silent-until-timeout, malformed reply, application error, success) for max_attempts 1,2 (thorough 1,2,3), followed by a healthy phase of two calls, against Fleet and AsyncFleet (call_json and call_message); all 4^4 tag-subset assignments over 2 tags x every requested subset for broadcasts. Oracle as the property states it: attempts <= max, every retry preceded by a transport failure, nothing after a reply, result = that reply or the last transport error, never wedged, broadcast addresses exactly the matching nodes.",
+      "A scripted fake node (real TCP listener owned by the harness, with a connect(2) seam so that a refused attempt is counted exactly) plays every outcome sequence of length <= max_attempts+2 over the seven-outcome alphabet (refused, accepted-then-closed, closed-while-idle, silent-until-timeout, malformed reply, application error, success) for max_attempts 1,2 (thorough 1,2,3), followed by a healthy phase of two calls, against Fleet and AsyncFleet (call_json and call_message); every error-code class (1..9, 10, 4095, 4096, 4097, u32::MAX) as the application-error reply on every script of length <= 2 that contains one; a connection that swallowed a request stays silent afterwards; all 4^4 tag-subset assignments over 2 tags x every requested subset for broadcasts. Oracle as the property states it: attempts <= max, every retry preceded by a transport failure, nothing after a reply, result = that reply or the last transport error, never wedged, broadcast addresses exactly the matching nodes.",
       "Real loopback TCP and a 150 ms node timeout: verdicts depend only on counts and results, every step waits for a positive event under a heartbeat watchdog, and a violation must reproduce from its recorded case. A malformed reply may be classified either way.",
       "exhaustive fault-sequence enumeration against the running fleets with a scripted node",
       "DESIGN.md §5 C19", "mc")
